@@ -26,12 +26,89 @@
 #ifndef AVOID_ORTHOGONAL_H
 #define AVOID_ORTHOGONAL_H
 
+#ifdef ADAPTAGRAMS_VERIF
+#include <cstddef>
+#include <utility>
+#include <vector>
+#endif
+
 namespace Avoid {
 
 class Router;
 
 extern void generateStaticOrthogonalVisGraph(Router *router);
 extern void improveOrthogonalRoutes(Router *router);
+
+#ifdef ADAPTAGRAMS_VERIF
+// Verification hook (compiled only with -DADAPTAGRAMS_VERIF; without the guard
+// this header and orthogonal.cpp are unchanged).  When verifNudgeRegionSink is
+// non-null, ImproveOrthogonalRoutes::nudgeOrthogonalRoutes() reports every
+// region it forms (once per region, dimension and pass): the ordered segments,
+// the variables and constraints handed to the VPSC solver in every attempt,
+// the solver outcome and the positions written back.
+#define ADAPTAGRAMS_VERIF_NUDGE_HOOK 1
+struct VerifNudgeSegment
+{
+    unsigned int connId;
+    double low;             // lowPoint()[altDim]
+    double high;            // highPoint()[altDim]
+    double pos;             // lowPoint()[dim] before solving
+    double minSpaceLimit;
+    double maxSpaceLimit;
+    bool fixed;
+    bool finalSegment;
+    bool endsInShape;
+    bool singleConnectedSegment;
+    bool sBend;
+    bool zBend;
+    size_t indexCount;
+    std::vector<double> checkpoints;  // (dim, altDim) coordinate pairs
+    double writtenLow;      // lowPoint()[dim] after the region was processed
+    double writtenHigh;     // highPoint()[dim] after the region was processed
+};
+struct VerifNudgeVariable
+{
+    int id;
+    double desiredPosition;
+    double weight;
+};
+struct VerifNudgeConstraint
+{
+    size_t left;            // index into variables
+    size_t right;
+    double gap;
+    bool equality;
+    bool unsatisfiable;     // as left by the solver
+};
+struct VerifNudgeAttempt
+{
+    double sepDist;         // separation distance this attempt was set up with
+    std::vector<VerifNudgeConstraint> constraints;
+    std::vector<double> finalPositions;
+    bool satisfied;         // outcome of the fixed-variable test
+    bool retry;             // the loop goes round again after this attempt
+};
+struct VerifNudgeRegion
+{
+    size_t dimension;
+    bool justUnifying;
+    bool skipped;           // single segment, no solver instance created
+    bool nudgeFinalSegments;
+    bool nudgeSharedPathsWithCommonEnd;
+    bool nudgeTouchingColinearSegments;
+    double fixedSharedPathPenalty;
+    double baseSepDist;
+    std::vector<VerifNudgeSegment> segments;
+    std::vector<VerifNudgeVariable> variables;
+    std::vector<VerifNudgeAttempt> attempts;
+    // pairs (a < b) of connector ids of this region found in
+    // m_shared_path_connectors_with_common_endpoints
+    std::vector<std::pair<unsigned int, unsigned int> > commonEndPairs;
+    bool satisfied;         // positions were written back
+};
+typedef void (*VerifNudgeRegionSink)(const VerifNudgeRegion& region);
+extern VerifNudgeRegionSink verifNudgeRegionSink;
+#endif
 
 
 }
